@@ -134,6 +134,18 @@ def run(ctx: Ctx) -> None:
         bad = [(ex, s) for ex, s in states if "armed" in s and "cancelled" not in s and "fired" not in s]
         kinds = sorted({"exceptional exit (cancellation / connection closed)" if ex is gt.raise_exit else "normal exit" for ex, s in bad})
         ctx.ob("C11.R2", cx, f"request timer {h} cancelled (or fired) on every exit", not bad, f"a timer is left behind on: {', '.join(kinds)}", node=arm)
+    # no library error class may also be one of the foreign exception types the library catches specifically: the
+    # request function maps TimeoutError to TimeoutAPIError - a connection error that IS a TimeoutError (set on the
+    # waiter by the closer) would be reported as a request timeout and leave the call's timer armed
+    foreign = {"TimeoutError", "asyncio.TimeoutError", "asyncio_TimeoutError", "OSError", "ConnectionError", "ConnectionResetError", "asyncio.CancelledError", "CancelledError", "BaseException", "KeyError", "ValueError", "IndexError", "RuntimeError"}
+    n_cls = 0
+    for key, ci in sorted(ctx.repo.classes.items()):
+        if ":" not in key or not ctx.repo.is_subclass(ci.name, "APIConnectionError"):
+            continue
+        n_cls += 1
+        bad_b = [b for b in ci.base_names if b in foreign or b.split(".")[-1] in {x.split(".")[-1] for x in foreign}]
+        ctx.ob("C11.R4", f"{ci.module.name}:{ci.name}", f"{ci.name} is not also a foreign exception type", not bad_b, f"bases {ci.base_names}: an `except {bad_b[0] if bad_b else ''}` written for the timer / the socket would swallow this connection error and misreport it")
+    ctx.count("C11.R4.classes", n_cls, 15, "connection error classes")
     # idempotent removal
     rem_calls = [c for c in own_nodes(unreg.node) if isinstance(c, ast.Call) and isinstance(c.func, ast.Attribute) and c.func.attr in ("discard", "remove")]
     ctx.ob("C11.R2", unreg, "handler removal is idempotent (discard)", bool(rem_calls) and all(c.func.attr == "discard" for c in rem_calls), "remove() raises when the handler is already gone (double removal after a close)")
@@ -143,6 +155,10 @@ def run(ctx: Ctx) -> None:
     ctx.ob("C11.R2", reg_base, "registration covers every requested type", len(loops) == 1 and norm(loops[0].iter) in reg_base.param_names() and not any(isinstance(x, (ast.Break, ast.Return)) for x in ast.walk(loops[0])), "")
     sets_ok = any(isinstance(n, ast.Set) for n in own_nodes(reg_base.node)) and any(isinstance(c, ast.Call) and isinstance(c.func, ast.Attribute) and c.func.attr == "add" for c in own_nodes(reg_base.node))
     ctx.ob("C11.R2", reg_base, "handlers per type are a set (distinct partial objects of concurrent calls cannot collide)", sets_ok, "")
+    # ... and each type gets its OWN set: what is stored under a type must be a fresh set object
+    stores = [n for n in own_nodes(reg_base.node) if isinstance(n, ast.Assign) and any(isinstance(t, ast.Subscript) for t in n.targets)]
+    fresh = all(isinstance(n.value, ast.Set) or (isinstance(n.value, ast.Call) and norm(n.value.func) == "set") for n in stores)
+    ctx.ob("C11.R2", reg_base, "every response type gets its own handler set (a fresh set per stored entry)", bool(stores) and fresh, f"stores {[norm(n.value)[:40] for n in stores]}: types sharing one set object receive each other's handlers - a call waiting for one type completes with a sibling type's message")
     # the returned remover of add_message_callback removes exactly what was added
     amc = conn.methods.get("add_message_callback")
     if amc is not None:
